@@ -222,6 +222,8 @@ class ProjectedGradientDescent(MinimizationAlgorithm):
         """
         super().__init__()
         self._func_proj: Callable[[np.ndarray], np.ndarray] = func_proj
+        # a projection given by the user is kept, one derived from (qt, option) is rebuilt on every configuration
+        self._is_func_proj_given: bool = func_proj is not None
         self._qt: StandardQTomography = None
 
     @property
@@ -251,7 +253,7 @@ class ProjectedGradientDescent(MinimizationAlgorithm):
         """
         self._qt = qt
 
-        if self._func_proj is not None:
+        if self._is_func_proj_given:
             return
 
         setting_info = self._qt.generate_empty_estimation_obj_with_setting_info()
